@@ -85,7 +85,20 @@ def rule_b(repo, chk):
             chk.ob('C11.b', norm(r.value).endswith('POSITIONAL_ONLY'), r, 'a parameter followed by "/" is POSITIONAL_ONLY', norm(r.value))
         if gate(gk, r, lambda e, pol: pol and norm(e) in ("p == '*'", 'p.star_count')) is None:
             chk.ob('C11.b', norm(r.value).endswith('KEYWORD_ONLY'), r, 'a parameter preceded by "*"/*args is KEYWORD_ONLY', norm(r.value))
-    ts = repo.find(SIG, '_SignatureMixin.to_string.param_strings')
+    ts = repo.find_opt(SIG, '_SignatureMixin.to_string.param_strings')
+    if ts is None:
+        # the generator may live next to to_string instead of inside it: the one generator function to_string calls
+        outer = repo.find(SIG, '_SignatureMixin.to_string')
+        cands = []
+        for c_ in calls_in(outer, nested=True):
+            r_ = repo.resolve(c_.func)
+            d_ = repo.def_by_dotted(r_) if r_ else None
+            if d_ is not None and isinstance(d_, FUNC_TYPES) and any(isinstance(x, ast.Yield) and isinstance(x.value, ast.Constant) and x.value.value in ('/', '*')
+                                                                     for x in own_nodes(d_)):
+                cands.append(d_)
+        if len(cands) != 1:
+            raise AnchorError('the generator that renders the parameters of _SignatureMixin.to_string was not found')
+        ts = cands[0]
     c = cfg_of(ts)
     ys = [y for y in own_nodes(ts) if isinstance(y, ast.Yield)]
     slash = [y for y in ys if isinstance(y.value, ast.Constant) and y.value.value == '/']
